@@ -8,8 +8,10 @@ package gateway
 
 import (
 	"context"
+	"sync"
 
 	"github.com/nautilus/graphql"
+	"github.com/vektah/gqlparser/v2/ast"
 )
 
 // VerifInjectFile calls injectFile.
@@ -26,4 +28,38 @@ func VerifParseOperations(operationsJSON []byte) ([]*HTTPOperation, bool, error)
 // Executor can be driven directly with a hand-made plan.
 func VerifExecutionContext(ctx context.Context, logger Logger, plan *QueryPlan, variables map[string]interface{}) *ExecutionContext {
 	return &ExecutionContext{logger: logger, Plan: plan, Variables: variables, RequestContext: ctx}
+}
+
+// VerifGetPointData calls executorGetPointData.
+func VerifGetPointData(point string) (field string, index int, id string, err error) {
+	data, err := executorGetPointData(point)
+	if err != nil {
+		return "", 0, "", err
+	}
+	return data.Field, data.Index, data.ID, nil
+}
+
+// VerifIsListElement calls isListElement.
+func VerifIsListElement(path string) bool {
+	return isListElement(path)
+}
+
+// VerifFindInsertionPoints calls executorFindInsertionPoints.
+func VerifFindInsertionPoints(ctx *ExecutionContext, targetPoints []string, selectionSet ast.SelectionSet, result map[string]interface{}, startingPoints [][]string, fragmentDefs ast.FragmentDefinitionList) ([][]string, error) {
+	return executorFindInsertionPoints(ctx, &sync.Mutex{}, targetPoints, selectionSet, result, startingPoints, fragmentDefs)
+}
+
+// VerifExtractValue calls executorExtractValue.
+func VerifExtractValue(ctx *ExecutionContext, source map[string]interface{}, path []string) (interface{}, error) {
+	return executorExtractValue(ctx, source, &sync.Mutex{}, path)
+}
+
+// VerifInsertObject calls executorInsertObject.
+func VerifInsertObject(ctx *ExecutionContext, target map[string]interface{}, path []string, value interface{}) error {
+	return executorInsertObject(ctx, target, &sync.Mutex{}, path, value)
+}
+
+// VerifScrubInsertionIDs calls scrubInsertionIDs.
+func VerifScrubInsertionIDs(ctx *ExecutionContext, response map[string]interface{}) error {
+	return scrubInsertionIDs(ctx, response)
 }
